@@ -81,7 +81,7 @@ def handle (toks : List String) : Option String :=
         | some p =>
           let c := mkCodec cs.val (plainOf t) (v1 == "1") (mr, md) id some
           let g := c.pack (mkPage c (mr, md) p false (c.encV (pageVals p)))
-          let adm := pageOK c cs.val.okP (okSOf (v1 == "1") (mr, md)) (mr, md) p &&
+          let adm := pageOK c (fun _ => true) cs.val.okP (okSOf (v1 == "1") (mr, md)) (mr, md) p &&
             (pageVals p).all cs.val.okV
           s!"ok {if adm then 1 else 0} {hexN g.reps} {hexN g.defs} {hexN g.vals}"
     | _, _, _, _, _, _, _ => "bad-op"
